@@ -794,7 +794,7 @@ func (a *Authority) init() error {
 		constraintCerts := make([]*x509.Certificate, 0, size+1)
 		constraintCerts = append(constraintCerts, a.intermediateX509Certs...)
 		for _, root := range a.rootX509Certs {
-			if bytes.Equal(last.RawIssuer, root.RawSubject) && bytes.Equal(last.AuthorityKeyId, root.SubjectKeyId) {
+			if bytes.Equal(last.RawIssuer, root.RawSubject) && last.CheckSignatureFrom(root) == nil {
 				constraintCerts = append(constraintCerts, root)
 			}
 		}
